@@ -224,6 +224,7 @@ def run(ctx, rep):
     fresh_cell_for_new_names_only(F, rep)
     modify_targets_a_capture(F, rep)
     cell_writes_only_by_assignments(F, rep)
+    captured_values_keep_their_kind(F, rep)
 
     # ---- (a) ---------------------------------------------------------------------
     if _visit is not None:
@@ -378,3 +379,34 @@ def cell_writes_only_by_assignments(F, rep):
     rep.ob("C07.cell-writes", "outside the instruction handlers, the dispatch loop and the call machinery never write a variable cell in place",
            "violated" if hits else "ok", "; ".join(short[:2]) if hits else "%d handlers cut out, %d roots" % (len(handlers), len(roots)),
            None, fn="bytecode::function::Function::run", key="C07.cell-writes")
+
+
+
+def captured_values_keep_their_kind(F, rep):
+    """A function value "sees the variables of its defining scopes": a captured `int` is still an int for every question the type checker asks
+    about it.  The compiler wraps a captured variable's type (`CallbackVariable(T)`), so each yes/no predicate of TypeLayout that decides what
+    a value may be used for has to answer for the wrapped type what it answers for T.  The predicates are evaluated abstractly on T,
+    `CallbackVariable(T)` and an alias of T for the kinds they are about."""
+    from props import _hashkeys
+    TY = _hashkeys.Types(F)
+    preds = {"can_be_used_as_list_index": ["Int", "BigInt", "Str", "Float"], "is_float": ["Float", "Int"], "is_boolean": ["Bool", "Int"],
+             "supports_negate": ["Int", "Float", "Bool", "Str"], "can_be_hashed": ["Int", "Str", "Map"]}
+    n = 0
+    for name, kinds in sorted(preds.items()):
+        fn = F.fn("compiler::ast::r#type::TypeLayout::" + name)
+        if fn is None or fn.argc != 1:
+            continue
+        bad, und = [], []
+        for k in kinds:
+            base = _hashkeys.eval_pred(F, fn, TY.build(k, "b"))
+            # (type aliases are a different wrapper and no concern of this property: an alias of bool is refused as a condition today, captured or not)
+            for wrap, label in ((("Cb", k), "captured %s" % k.lower()),):
+                got = _hashkeys.eval_pred(F, fn, TY.build(wrap, "w"))
+                n += 1
+                if base is None or got is None:
+                    und.append(label)
+                elif got != base:
+                    bad.append("%s(%s) is %s but %s(%s) is %s" % (name, k.lower(), base, name, label, got))
+        rep.ob("C07.captured-kind", "TypeLayout::%s answers the same for a captured T as for T" % name,
+               "violated" if bad else ("undecided" if und else "ok"), "; ".join((bad or und)[:3]), fn.span, fn=fn.path, key="C07.captured-kind|%s" % name)
+    rep.floor("C07.captured-kind predicate evaluations", n, 10)
